@@ -73,11 +73,17 @@ def shard(col, module, mode, pop_bound, limit, n_groups, variants):
     try:
         pipe = pipeline.Pipe(module, scratch)
         tests, _ = pipe.population(bound=pop_bound, limit=limit)
-        step = max(1, len(tests) // 6)
-        core = tests[::step][:6]
+        # core = one (smallest) test per distinct set of called accessibles, so that suites mix tests
+        # with different kinds of assertions (float / int / str / object state / raising)
+        by_calls = {}
+        for t in tests:
+            key = tuple(sorted({str(s.accessible) for s in t.statements() if s.accessible is not None}))
+            by_calls.setdefault(key, t)
+        core = list(by_calls.values())[:8]
         groups = [[t] for t in tests]
-        groups += [list(g) for g in itertools.islice(itertools.combinations(core, 2), n_groups)]
-        groups += [list(g) for g in itertools.islice(itertools.combinations(core, 3), n_groups // 2)]
+        # ORDERED pairs: which test comes last matters to the writer's import bookkeeping
+        groups += [list(g) for g in itertools.islice(itertools.permutations(core, 2), n_groups)]
+        groups += [list(g) for g in itertools.islice(itertools.combinations(core, 3), n_groups // 4)]
         written = {}
         for gi, group in enumerate(groups):
             for (seed_fixture, no_xfail, minimize) in variants:
@@ -178,7 +184,7 @@ def run(ctx):
     variants_t = [(s, x, m) for s in (False, True) for x in (False, True) for m in (False, True)]
     jobs = []
     for m in modules:
-        jobs.append((m, "SIMPLE", 1 if quick else 2, 12 if quick else 60, 4 if quick else 12,
+        jobs.append((m, "SIMPLE", 1 if quick else 2, 12 if quick else 60, 56 if quick else 56,
                      variants_q if quick else variants_t))
         jobs.append((m, "NONE", 1, 12 if quick else 40, 2 if quick else 8, variants_q[:2] if quick else variants_t))
         if not quick:
